@@ -777,17 +777,21 @@ func emitFlowRecordTable(e *emitter, p *pkg) {
 		}
 	}
 	if !ok {
-		e.raw("recordTable", "List (String × String × String)", "[]", nil)
+		e.raw("recordTable", "List (String × String × String × String)", "[]", nil)
 		e.missing = append(e.missing, e.key("recordTable"))
 	} else {
 		var ss []string
 		var js [][]string
 		for _, r := range rows {
-			ss = append(ss, "("+flowQ(r.typ)+", "+flowQ(r.cond)+", "+flowQ(r.action)+")")
-			js = append(js, []string{r.typ, r.cond, r.action})
+			act, detail := r.action, ""
+			if i := strings.Index(act, ":"); i >= 0 {
+				act, detail = act[:i], act[i+1:]
+			}
+			ss = append(ss, "("+flowQ(r.typ)+", "+flowQ(r.cond)+", "+flowQ(act)+", "+flowQ(detail)+")")
+			js = append(js, []string{r.typ, r.cond, act, detail})
 		}
-		e.comment("readRecordOrCCS, `switch typ`: (record type, condition, action) in source order")
-		e.raw("recordTable", "List (String × String × String)", "[\n    "+strings.Join(ss, ",\n    ")+"]", js)
+		e.comment("readRecordOrCCS, `switch typ`: (record type, condition, action, alert sent) in source order")
+		e.raw("recordTable", "List (String × String × String × String)", "[\n    "+strings.Join(ss, ",\n    ")+"]", js)
 	}
 	// conditions checked before the switch, in source order, as (condition, action)
 	var pre []string
@@ -803,6 +807,9 @@ func emitFlowRecordTable(e *emitter, p *pkg) {
 					a := flowClassifyAction(p, is.Body.List)
 					if a == "other" && strings.Contains(p.src(is.Body), "c.retryCount = 0") {
 						a = "resetRetry"
+					}
+					if i := strings.Index(a, ":"); i >= 0 {
+						a = a[:i]
 					}
 					pre = append(pre, "("+flowQ(c)+", "+flowQ(a)+")")
 					preJS = append(preJS, []string{c, a})
